@@ -42,6 +42,18 @@ class C10(Harness):
     )
     outside = ("update_predict(update_params=True) over a stretch that overlaps seen data (repeated cutoff labels in the result frame)", "histories longer than the enumerated programs", "exogenous data", "datetime indices")
 
+    def overrides(self, kind, cell):
+        if cell["kind"] == "poly" and kind == "sym":
+            import types
+            from .. import msk
+
+            return {
+                "sklearn.linear_model": types.SimpleNamespace(LinearRegression=msk.LinearRegression),
+                "sklearn.pipeline": types.SimpleNamespace(make_pipeline=msk.make_pipeline),
+                "sklearn.preprocessing": types.SimpleNamespace(PolynomialFeatures=msk.PolynomialFeatures),
+            }
+        return None
+
     def bounds(self, tier):
         return {"programs": PROGRAMS[tier], "fit_len": "2..3", "batch_len": "1..2 (update_predict: max(fh)+1..3, so that the moving window fits)", "fh_steps": "1..2, h <= 2", "overlap": "0..1"}
 
@@ -56,6 +68,11 @@ class C10(Harness):
                 if k == "member-selffh" and not any(o.startswith("UP") for o in prog):
                     continue  # (same as "member" there)
                 out.append({"name": "%s-%s" % (k, "".join(prog)), "kind": k, "prog": prog, "cost": len(prog)})
+        # a trend forecaster (fitted parameters = a line over time counted from the training start): differential against
+        # fresh objects -- fitted on the union after a refitting update; fitted on the data of the last refit and asked for
+        # the same time points after an update without refit
+        for prog in (["U1", "P"], ["U0", "P"], ["U1", "U0", "P"], ["U0", "U1", "P"]):
+            out.append({"name": "poly-%s" % "".join(prog), "kind": "poly", "prog": prog, "cost": 2})
         # a training series of integer dtype (counts), later batches real-valued
         for k in ("naive-last", "naive-mean-wlnone"):
             for prog in (["U1", "P"], ["U0", "P"], ["UP0"]):
@@ -167,9 +184,41 @@ class C10(Harness):
         PIPE = W.load("sktime.forecasting.compose._pipeline").TransformedTargetForecaster
         return PIPE([("t", T(tag=1)), ("f", Member(p=3))])
 
+    def _poly(self, W, inp, cell):
+        np, pd = W.np, W.pd
+        PT = W.load("sktime.forecasting.trend").PolynomialTrendForecaster
+        FH = W.load("sktime.forecasting.base").ForecastingHorizon
+        s0 = inp["s0"]
+        fh = np.array(inp["fh"])
+        data = list(inp["y1"])
+        y1 = pd.Series(data, index=pd.RangeIndex(s0, s0 + len(data)))
+        f = PT(degree=1).fit(y1)
+        fitted_on = list(data)  # what the last (re)fit saw
+        bi = 0
+        pred = None
+        for op in cell["prog"]:
+            if op == "P":
+                p = f.predict(fh)
+                pred = [L(p.index), L(p.values)]
+                continue
+            b = inp["batches"][bi]
+            bi += 1
+            yb = pd.Series(b["vals"], index=pd.RangeIndex(s0 + len(data), s0 + len(data) + len(b["vals"])))
+            f.update(yb, update_params=op.endswith("1"))
+            data += list(b["vals"])
+            if op.endswith("1"):
+                fitted_on = list(data)
+        cutoff = s0 + len(data) - 1
+        labels = [cutoff + h for h in inp["fh"]]
+        fresh = PT(degree=1).fit(pd.Series(fitted_on, index=pd.RangeIndex(s0, s0 + len(fitted_on))))
+        q = fresh.predict(FH(np.array(labels), is_relative=False))
+        return {"pred": pred, "cutoff": S(f.cutoff), "want_cutoff": cutoff, "labels": labels, "reference": [L(q.index), L(q.values)], "refit_last": len(fitted_on) == len(data)}
+
     def scenario(self, W, inp, cell):
         np, pd = W.np, W.pd
         self._curW = W
+        if cell["kind"] == "poly":
+            return self._poly(W, inp, cell)
         sp = W.load(SPLIT)
         kind, prog = cell["kind"], cell["prog"]
         s0 = inp["s0"]
@@ -272,6 +321,15 @@ class C10(Harness):
     def oracle(self, P, inp, out, cell):
         W = self._curW
         kind = cell["kind"]
+        if kind == "poly":
+            P.eq("cutoff-after-update", out["cutoff"], out["want_cutoff"])
+            idx, vals = out["pred"]
+            P.check("forecast-index-from-new-cutoff", len(idx) == len(inp["fh"]))
+            lab = "refit-equals-fresh-fit-on-union" if out["refit_last"] else "no-refit-keeps-fitted-params"
+            for a, want_lab, v, r in zip(idx, out["labels"], vals, out["reference"][1]):
+                P.eq("forecast-index-from-new-cutoff", a, want_lab)
+                P.eq(lab, v, r, {"what": "fresh forecaster fitted on the data of the last (re)fit, asked for the same time points"})
+            return
         s0, fh = inp["s0"], inp["fh"]
         mem = {i: v for i, v in enumerate(inp["y1"])}  # offset -> value
         cutoff_off = len(inp["y1"]) - 1
